@@ -418,7 +418,7 @@ def run(ctx) -> list[Inst]:
             RULE, f.short, f'MUTDEFAULT: {stmt_text(n, 60)}', 'violation',
             msg=(f"parameter '{p}' has a mutable default and '{stmt_text(n, 80)}' changes it in place: the default "
                  f"object is shared by every call that omits the argument, data of one call leaks into the next"),
-            file=rel, line=n.lineno, props=props_for(f.short, rel)))
+            file=rel, line=n.lineno, props=tuple(dict.fromkeys(tuple(props_for(f.short, rel)) + ('C16',)))))
     for (f, it, name, how) in bad_g:
         rel = f.module.relpath
         flagged.add(f.qname)
